@@ -371,6 +371,11 @@ func (g *Gen) Next(now int64) Op {
 		}},
 		{p.SetDelay, func() (Op, bool) {
 			s := g.liveSub()
+			if g.R.Intn(4) == 0 && len(g.Subs) > 0 {
+				// any subscription name the history has used, deleted ones too: the delay injector
+				// answers for live subscriptions only, whether or not a deleted one's row is still stored
+				s = g.Subs[g.R.Intn(len(g.Subs))]
+			}
 			if s == nil {
 				return Op{}, false
 			}
